@@ -2,7 +2,9 @@
 
 1. TLC explores spec/BlockCheck.tla: the whole tamper table (4 block kinds x every derived header
    field x {flip, +1, -1, zero, foreign}, body edits x {txHash recomputed, not}, timestamp window,
-   ineligible proposers, every mix of two honest sibling blocks, two-part tampers) run through the
+   ineligible proposers, every mix of two honest sibling blocks, two-part tampers, STRUCTURAL tampers
+   that change which parts (empty / proposed) the header carries or attach a body to an empty block)
+   run through the
    staged validator of the model; invariants AcceptedConsistent / VerdictMatchesTable / TableSound
    (the table never expects a rejection it cannot justify).  Every case is exported with the model's
    expectation.
@@ -12,8 +14,9 @@
    digest, head, live roots and tree versions are logged.
 3. TLC validates the recorded trace against spec/Trace_BlockCheck.tla: the model's expectation for the
    logged case is the oracle for the verdicts, the property clauses (AcceptedInconsistent,
-   RejectedWithSideEffect, OriginalNotInsertable, InsertionDiffersFromClean) are evaluated on the
-   observed states.
+   RejectedWithSideEffect, OriginalNotInsertable, InsertionDiffersFromClean, StoredDiffersFromHonest:
+   an accepted block leaves exactly what the clean insertion of the honest block with its hash leaves)
+   are evaluated on the observed states.
 """
 import collections
 import concurrent.futures
@@ -31,18 +34,20 @@ MANIFEST = dict(
     id="C03", category="model_checking",
     text="TLC explores the BlockCheck case table (block kinds x derived header fields x {flip,+1,-1,zero,foreign}, body edits x "
          "{txHash recomputed, not}, timestamp window, ineligible proposers, all mixes of two honest sibling blocks, two-part "
-         "tampers) through a staged model of the validator and checks that the table only expects what the property justifies; "
+         "tampers, structural tampers of the header: both / neither part, a proposed part of the sibling, of another height or "
+         "fabricated attached to the honest empty header and vice versa, each part tampered, a body on an empty block) through a staged model of the validator and checks that the table only expects what the property justifies; "
          "every case is replayed on fresh real nodes for every block of real chains (ValidateBlock, AddBlock as the engine and "
          "as the full-sync loader call it, then insertion of the honest original) and TLC validates the recorded trace: model "
          "verdict = real verdict, complete database digest / head / live roots / tree versions unchanged on reject, original "
-         "still insertable with exactly the clean result.",
+         "still insertable with exactly the clean result; an accepted block must leave exactly what the clean insertion of the "
+         "honest block with its hash leaves (canonical header bytes, tx index, every key).",
     note="chains of 14 (quick) / 60+30 (thorough) blocks in the V12 configuration: plain txs, contract deployment receipts, "
          "no txs, empty blocks, KillTx and status-switch identity updates, flip-lottery start; free choices (in-window time, "
-         "offline-vote bits, upgrade bits, absent fee rate) carry no expectation; bodies attached to empty headers are out of "
-         "scope; check state is the node's own",
+         "offline-vote bits, upgrade bits, absent fee rate) carry no expectation; blocks without a header or body object (nil) "
+         "are the wire layer's (C12); check state is the node's own",
     technique="TLA+ case-table model + TLC-exported cases replayed on real code + TLC trace validation",
     design_ref="DESIGN.md#c03")
-SINGLE = ("none", "field", "body", "time", "key", "free")
+SINGLE = ("none", "field", "body", "time", "key", "free", "struct")
 
 
 BODY_DEP = ("txhash", "bloom", "flags", "root", "idroot", "ipfs", "rcid")
@@ -58,6 +63,8 @@ def case_class(c, diff=None):
         return "body-%s-%s" % (c["e"], "rehashed" if c.get("rehash") else "stale-txhash")
     if t in ("time", "key", "free"):
         return "%s-%s" % (t, c["c"])
+    if t == "struct":
+        return "struct-" + c["s"]
     if t == "mix":
         fs = sorted(k for k, v in c["src"].items() if v != c["body"] and (diff is None or k in diff))
         return "mix-" + ("+".join(fs) if fs else "pure-" + c["body"])
@@ -102,6 +109,8 @@ def summarize(rows):
             cnt["skipped_" + r["why"]] += 1
         elif ev in ("Validate", "Add"):
             cnt["%s_%s" % (ev.lower(), r["r"])] += 1
+            if r.get("twin"):
+                cnt["twins"] += 1
         elif ev == "Insert":
             cnt["insert_" + r["r"]] += 1
     return cnt, offered
@@ -229,6 +238,7 @@ def main(ctx):
     # vacuity: the driver must have exercised every class of the table on real blocks
     for k in ("orig_ptx", "orig_prc", "orig_pnotx", "orig_empty", "orig_identity_update", "orig_flip_lottery",
               "offered_field", "offered_body", "offered_time", "offered_key", "offered_mix", "offered_multi", "offered_none",
+              "offered_struct",
               "validate_reject", "add_reject", "insert_accept"):
         if not cnt.get(k):
             raise vlib.CheckError("dead driver: nothing counted for '%s'" % k)
@@ -245,6 +255,12 @@ def main(ctx):
             raise vlib.CheckError("dead driver: field %s of kind %s was tampered by fewer than 3 operators" % (c["f"], kind))
         if c["t"] in ("body", "time", "key") and (kind, cj) not in offered:
             raise vlib.CheckError("dead driver: case %s never offered for kind %s" % (cj, kind))
+    struct_offered = {json.loads(cj)["s"] for (kind, cj) in offered if json.loads(cj)["t"] == "struct"}
+    struct_all = {e["c"]["s"] for e in table if e["c"]["t"] == "struct"}
+    if struct_all - struct_offered:
+        raise vlib.CheckError("dead driver: structural cases never offered: %s" % sorted(struct_all - struct_offered))
+    if not cnt.get("twins"):
+        raise vlib.CheckError("dead driver: no accepted block was compared with the clean insertion of its honest twin")
     if len(missing) > 0.08 * len(singles):
         raise vlib.CheckError("dead driver: %d of %d single cases never offered: %s" % (len(missing), len(singles), missing[:10]))
 
@@ -279,7 +295,11 @@ def main(ctx):
                 o = max(i for i in range(b) if rows[i]["ev"] == "Orig")
                 end = next((i for i in range(b + 1, len(rows)) if rows[i]["ev"] in ("Begin", "Skip", "Orig")), len(rows))
                 begin = rows[b]
-                key = "C03:%s:%s:%s" % (clause.split(":")[0], begin["kind"], case_class(begin["c"], begin["diff"]))
+                if begin["c"]["t"] == "struct":
+                    # which header parts a block carries does not depend on the kind of the honest block of that height
+                    key = "C03:%s:%s" % (clause.split(":")[0], case_class(begin["c"]))
+                else:
+                    key = "C03:%s:%s:%s" % (clause.split(":")[0], begin["kind"], case_class(begin["c"], begin["diff"]))
                 if key in reported:
                     reported[key]["n"] += 1
                     continue
@@ -294,7 +314,8 @@ def main(ctx):
         what = ("clause %s broken by the real validator: original #%d (height %d, kind %s, %d txs%s), case %s, fields really "
                 "changed %s; observed %s (%d occurrence(s) of this signature)"
                 % (v["clause"], o["id"], o["h"], o["kind"], o["txs"], (", " + o["note"]) if o.get("note") else "",
-                   json.dumps(begin["c"]), begin["diff"], json.dumps({k: v["bad"].get(k) for k in ("ev", "r", "stage", "err")}), v["n"]))
+                   json.dumps(begin["c"]), begin["diff"], json.dumps({k: v["bad"].get(k) for k in ("ev", "r", "stage", "err", "mode", "twin_is", "stored_header_is_honest",
+                                                              "tx_index_entries", "honest_txs") if k in v["bad"]}), v["n"]))
         vlib.report_violation(ctx, key, what, replay_src=ex_path, payload={"case": begin["c"], "seed": ctx.seed, "original": o})
 
     if not reported:
@@ -320,7 +341,7 @@ def main(ctx):
         "model_cfg": cfg,
         "exhaustive": True,
         "rule": "every case of the bounded table (4 block kinds x 12/7 derived fields x 5 operators, 10 body edits, 5 window and 3 proposer "
-                "cases, 256 sibling mixes per kind, all single cases; a seeded sample of the two-part cases) offered to a fresh real "
+                "cases, 256 sibling mixes per kind, 13 structural cases, all single cases; a seeded sample of the two-part cases) offered to a fresh real "
                 "node on every original of %s; expectation of the model = oracle"
                 % ("a 14-block chain" if quick else "two chains of 60 (up to 4 rejected cases per node before the original is inserted) and 30 blocks"),
     }
@@ -328,7 +349,7 @@ def main(ctx):
         "hash functions are collision free (an injective dependency of a field on a changed input is a certain mismatch)",
         "the proposer's free choices (timestamp inside the window, offline-vote bits and address, upgrade bits, an absent fee rate) "
         "carry no expectation; they are offered and only the no-side-effect clause is evaluated on them",
-        "a body cannot reach a node attached to an empty header (empty bodies are rebuilt locally): the tamper space of empty blocks is "
-        "their header",
+        "a well-formed header carries exactly one part (empty or proposed) and an empty block carries no transactions; the wire layer "
+        "enforces the first (Header.IsValid) and rebuilds empty bodies locally, the validator is held to both on its own",
         "the validator's state is its own committed state (checkState = nil, as the consensus engine, proposals and fork paths call it)",
     ])
